@@ -16,13 +16,13 @@ type ZZState = zzState
 
 type ZZStateOpts struct {
 	MaxPool, MaxBatches, MaxPerBatch   int
-	ZeroFees, ConcreteIds, SymDecimals bool
+	ZeroFees, ConcreteIds, SymDecimals, DecChoice bool
 	Chains                             []types.ChainID
 }
 
 func ZZBuildState(o ZZStateOpts) *ZZState {
 	return zzBuildState(zzStateOpts{maxPool: o.MaxPool, maxBatches: o.MaxBatches, maxPerBatch: o.MaxPerBatch,
-		zeroFees: o.ZeroFees, concreteIds: o.ConcreteIds, symDecimals: o.SymDecimals, chains: o.Chains})
+		zeroFees: o.ZeroFees, concreteIds: o.ConcreteIds, symDecimals: o.SymDecimals, decChoice: o.DecChoice, chains: o.Chains})
 }
 
 func (st *ZZState) Env() *ZZEnv                   { return st.env }
